@@ -41,6 +41,8 @@ func TestCheck(t *testing.T) {
 		"a fragment on the interface / union with one nested type-conditioned fragment per implementer under a concrete parent type (inline / named, both orders), " +
 		"a custom executable directive @tag at every kind of site (field, inline fragment, fragment spread, operation) with a literal / a variable used only there / a variable shared with a field argument, each variable also named like a canonical name and with a second spelling, " +
 		"the same literal at two argument positions of similar types ([T] vs [T!], [[T]] vs [[T]!], [T]! vs [T!]!, T vs T!, [T] vs [T]!, T vs [T], Int vs Float, String vs ID, [In] vs [In!]) in both orders, " +
+		"2 and 3 directives from {@skip/@include literal true/false, through variables with both values, custom @tag} in every order on every field (directly, on a fragment spread, on an inline fragment) of the bases with <=2 selections and on the type-conditioned inline fragments of the bases with 3 selections, each without / with a first-in-document directive that removes / keeps a sibling (single decoration only), " +
+		"a field next to a copy of itself where one of the two is self-aliased (directly, through an inline / named fragment, with split selection), " +
 		"__typename, @skip/@include literal/variable/defaulted variable with both values, argument value menus incl. null, list coercion, nested input objects, " +
 		"written as literal / variable / variable named like a generated one / defaulted variable / defaulted variable overridden by a value or by null / literal mixing variables, " +
 		"omitted optional argument, unused variable, variable renaming, operation name) at every applicable site, all combinations of <=1 (quick) / <=2 (thorough, smaller bases) decorations; " +
@@ -50,6 +52,7 @@ func TestCheck(t *testing.T) {
 		"an operation is judged only when gqlparser's validator AND the repository's validator accept the ORIGINAL and the reference executor runs it without errors; disagreements are counted as oracle_split",
 		"the response key __internal__typename_placeholder (added by the normalizer for emptied selection sets, documented as ignored by the planner) is removed before responses are compared",
 		"normalized variables = request variables after normalization with their keys renamed by the mapping the variables mapper returns (what the resolver sees through RemapVariables)",
+		"second seam (cases with <=1 decoration): ONE graphql.Request.Normalize call with the package's default options must be idempotent too (the engine's sequence runs the walkers twice and would hide what a single pass leaves undone)",
 		"canonical classes: root = base + every decoration the property sentence does not list; members add in-place fragment structure, in-set duplicates, variable renaming, literal<->variable; the operation name is held fixed; one of several equal literals turned into a variable is not a member (documented contract of the variables mapper)",
 	)
 	var b tierBounds
@@ -81,6 +84,7 @@ func TestCheck(t *testing.T) {
 		if err := run.ReplayInput(&in); err != nil {
 			t.Fatal(err)
 		}
+		c.singlePass = len(in.Decs) <= 1
 		for i := 0; i < 3; i++ {
 			c.roots = map[string]*rootInfo{}
 			r, ok := c.evalCase(in.Base, in.Decs, needAll)
@@ -109,38 +113,54 @@ func TestCheck(t *testing.T) {
 	nextDeadlineCheck := 1000
 	expired := false
 
+	recheckOnly := false // the case was already recorded; only its clause-4 findings are new
 	record := func(base *Op, decs []Dec, r caseResult) {
-		run.Eval(1)
 		evals++
-		switch r.V.Status {
-		case "judged":
-			run.Count("judged", 1)
-			if r.V.Twin {
-				run.Count("repo_validator_asked_about_inlined_twin", 1)
+		if recheckOnly {
+			if r.V.Status != "judged" {
+				return
 			}
-		case "rejected":
-			run.Count("rejected_invalid_by_both_validators", 1)
-			run.Count("rejected:"+r.V.Why, 1)
-			return
-		case "oracle_split":
-			run.Count("oracle_split", 1)
-			run.Count("oracle_split:"+r.V.Why, 1)
-			if !noted[r.V.Why] {
-				noted[r.V.Why] = true
-				run.Note("oracle_split (%s): %s | %s", r.V.Why, r.V.Text, r.V.Vars)
+			if r.CanonChk {
+				run.Count("canonical_form_checked", 1)
+				run.Count("canonical_form_checked_in_the_other_order_of_the_pair", 1)
 			}
-			return
-		default:
-			run.Count("not_judged", 1)
-			run.Count("not_judged:"+strings.SplitN(r.V.Why, ":", 2)[0], 1)
-			return
+		} else {
+			run.Eval(1)
 		}
-		if r.V.Norm.Printed != "" {
+		switch {
+		case recheckOnly:
+		default:
+			switch r.V.Status {
+			case "judged":
+				run.Count("judged", 1)
+				if r.V.Twin {
+					run.Count("repo_validator_asked_about_inlined_twin", 1)
+				}
+			case "rejected":
+				run.Count("rejected_invalid_by_both_validators", 1)
+				run.Count("rejected:"+r.V.Why, 1)
+				return
+			case "oracle_split":
+				run.Count("oracle_split", 1)
+				run.Count("oracle_split:"+r.V.Why, 1)
+				if !noted[r.V.Why] {
+					noted[r.V.Why] = true
+					run.Note("oracle_split (%s): %s | %s", r.V.Why, r.V.Text, r.V.Vars)
+				}
+				return
+			default:
+				run.Count("not_judged", 1)
+				run.Count("not_judged:"+strings.SplitN(r.V.Why, ":", 2)[0], 1)
+				return
+			}
+		}
+		if !recheckOnly && r.V.Norm.Printed != "" {
 			if run.Outcome(r.V.Norm.Printed) && len(decs) <= 1 {
 				run.Sample(decKinds(decs), map[string]any{"operation": r.V.Text, "variables": string(r.V.Vars), "normalized": r.V.Norm.Printed, "normalized_variables": string(r.V.Norm.Vars)})
 			}
 		}
-		if r.CanonChk {
+		if recheckOnly {
+		} else if r.CanonChk {
 			run.Count("canonical_form_checked", 1)
 		} else if r.CanonWhy != "" {
 			run.Count("canonical_form_not_judged: "+r.CanonWhy, 1)
@@ -230,6 +250,8 @@ func TestCheck(t *testing.T) {
 
 	// singles: the base and every single decoration of it
 	singles := func(base *Op) {
+		c.singlePass = true
+		defer func() { c.singlePass = false }()
 		run.Count("base_operations", 1)
 		seen := map[string]bool{base.key(): true}
 		r, _ := c.evalCase(base, nil, needAll)
@@ -237,7 +259,7 @@ func TestCheck(t *testing.T) {
 		if r.V.Status != "judged" {
 			run.Count("base_not_judged", 1)
 		}
-		for _, d1 := range decorations(base, true) {
+		for _, d1 := range append(decorations(base, true), singleDecorations(base)...) {
 			if checkDeadline() {
 				return
 			}
@@ -249,6 +271,9 @@ func TestCheck(t *testing.T) {
 				seen[k] = true
 				r, _ := c.evalCase(base, []Dec{d1}, needAll)
 				run.Count("decorated_variants_1", 1)
+				if d1.Kind == "mdir" {
+					run.Count("decorated_variants_1_several_directives", 1)
+				}
 				record(base, []Dec{d1}, r)
 			}
 		}
@@ -259,11 +284,14 @@ func TestCheck(t *testing.T) {
 	// wrap the wrapper, skip the duplicate - is reached)
 	pairsOf := func(base *Op) {
 		run.Count("base_operations_with_pairs", 1)
-		seen := map[string]bool{base.key(): true}
+		// seen: 1 = evaluated; 2 = evaluated, but clause 4 could not be judged in that order
+		// of the two decorations (class decoration first) - the same text reached in the
+		// other order is then judged for clause 4 only
+		seen := map[string]int{base.key(): 1}
 		d1s := decorations(base, true)
 		for _, d1 := range d1s {
 			if op1, ok := build(base, []Dec{d1}); ok {
-				seen[op1.key()] = true
+				seen[op1.key()] = 1
 			}
 		}
 		for _, d1 := range d1s {
@@ -281,11 +309,25 @@ func TestCheck(t *testing.T) {
 					continue
 				}
 				k := op2.key()
-				if seen[k] {
+				switch seen[k] {
+				case 1:
+					continue
+				case 2:
+					if _, differs, ok := classRoot(base, decs); !ok || !differs {
+						continue
+					}
+					seen[k] = 1
+					r, _ := c.evalCase(base, decs, needCanon)
+					recheckOnly = true
+					record(base, decs, r)
+					recheckOnly = false
 					continue
 				}
-				seen[k] = true
 				r, _ := c.evalCase(base, decs, needAll)
+				seen[k] = 1
+				if r.CanonWhy == "non-class decoration applied after a class decoration" {
+					seen[k] = 2
+				}
 				run.Count("decorated_variants_2", 1)
 				record(base, decs, r)
 			}
